@@ -330,9 +330,11 @@ fn main() {
     // Record the first unexpected panic message; expected ones (injected panic
     // points and their translation by divan) are ignored.
     let first = Arc::new(AtomicBool::new(false));
+    let oracle_seen = Arc::new(AtomicBool::new(false));
     {
         let side = side.clone();
         let first = first.clone();
+        let oracle_seen = oracle_seen.clone();
         std::panic::set_hook(Box::new(move |info| {
             let msg = if let Some(s) = info.payload().downcast_ref::<&str>() {
                 (*s).to_owned()
@@ -341,10 +343,21 @@ fn main() {
             } else {
                 "<non-string panic>".to_owned()
             };
+            if std::env::var_os("MC_LOOM_TRACE").is_some() {
+                eprintln!("[panic] {msg} @{:?} quiet={}", info.location().map(|l| format!("{}:{}", l.file(), l.line())), log::in_quiet_section());
+            }
             if info.payload().is::<Bomb>() || msg.contains(loopdrv::INJECTED_PANIC) || msg.starts_with("Divan benchmarking thread") || log::in_quiet_section() {
                 return;
             }
-            if !first.swap(true, SeqCst) {
+            // The first unexpected panic is the record; an oracle verdict that follows it
+            // (e.g. after an engine artefact such as a poisoned explorer mutex made the run
+            // end with a different panic than expected) replaces it, being the precise one.
+            let is_oracle = msg.starts_with("oracle:");
+            let had_first = first.swap(true, SeqCst);
+            if !had_first || (is_oracle && !oracle_seen.swap(true, SeqCst)) {
+                if is_oracle {
+                    oracle_seen.store(true, SeqCst);
+                }
                 let loc = info.location().map(|l| format!(" @{}:{}", l.file(), l.line())).unwrap_or_default();
                 let _ = std::fs::write(&side, format!("{msg}{loc}\niteration={}\n", ITERATIONS.load(SeqCst)));
             }
